@@ -200,6 +200,11 @@ def standard_parsing_functions(Block: Any, Tx: Any) -> list[Any]:
     The return value is expected to be used with the standard_streamer function.
     """
 
+    def parse_optional_bool(f: IO[bytes]) -> bool | None:
+        # the inverse of packing: nothing at all for None, else one byte
+        b = f.read(1)
+        return struct.unpack("?", b)[0] if b else None  # type: ignore[no-any-return]
+
     def stream_block(f: IO[bytes], block: Any) -> None:
         assert isinstance(block, Block)
         block.stream(f)
@@ -236,7 +241,7 @@ def standard_parsing_functions(Block: Any, Tx: Any) -> list[Any]:
         (
             "O",
             (
-                lambda f: True if f.read(1) else False,
+                parse_optional_bool,
                 lambda f, v: f.write(b"" if v is None else struct.pack("B", v)),
             ),
         ),
